@@ -5,6 +5,7 @@ import (
 	"errors"
 	"fmt"
 	"io"
+	"os"
 	"sync"
 	"time"
 
@@ -230,6 +231,9 @@ func (l *link) write(p []byte) (int, error) {
 			continue
 		}
 		l.inflight = append(l.inflight, p[:room]...)
+		if debugLink {
+			l.s.Logf(l.name, "write %x", p[:room])
+		}
 		if l.tap != nil {
 			l.tap(p[:room])
 		}
@@ -240,6 +244,8 @@ func (l *link) write(p []byte) (int, error) {
 	}
 	return written, nil
 }
+
+var debugLink = os.Getenv("VERIF_JOURNAL_LINK") != "" // (debugging aid only: changes the journal)
 
 // pump is the body of the link's delivery actor.
 func (l *link) pump(fragMax int, delay time.Duration) {
@@ -313,12 +319,15 @@ func (l *link) read(p []byte, short bool) (int, error) {
 		if v > 0 && len(p) > 0 {
 			n := min(len(p), v)
 			if short && l.shortMax > 0 && n > 1 {
-				n = min(n, 1+l.s.Choose(l.shortMax))
+				n = min(n, 1+l.s.ChooseKeyed("short-read:"+l.name, l.shortMax))
 			}
 			copy(p, l.arrived[:n])
 			l.arrived = l.arrived[n:]
 			l.consumed += n
 			l.mu.Unlock()
+			if debugLink {
+				l.s.Logf(l.name, "read %x (buffer %d, visible %d)", p[:n], len(p), v)
+			}
 			signal(l.writable)
 			return n, nil
 		}
